@@ -251,43 +251,30 @@ theorem ifnz_bad_mirror {c : Int} {I : List (Instr w)} {a b : State w}
 /-! ### one round of the child along the footprint -/
 
 section Round
-variable {shP shC cS : Int} {pc : List (Rebuild w)} {sub0 sub1 : Rebuild w} {bodyS : List (Instr w)}
+variable {Gc : State w → Prop} {shP shC cS : Int} {pc : List (Rebuild w)} {sub0 sub1 : Rebuild w}
+  {bodyS : List (Instr w)}
 
-theorem ChildOk.round (hc : ChildOk shP shC pc sub0 sub1 cS bodyS) {X : Int → Prop}
+theorem ChildOk.round (hc : ChildOk Gc shP shC pc sub0 sub1 cS bodyS) (hall : ∀ σ, Gc σ) {X : Int → Prop}
     (hX : ∀ v, X v → v ∉ sub1.reads) {a b : State w} (hab : AgreeOff X a b)
     (hne : a.rd (cS + shP) ≠ 0#w) :
     Sim (fun a' b' => AgreeOff (Rest X sub1) (a'.mov 0) (b'.mov 0)) sub1.insts sub1.insts a b :=
-  (hc.foot hc.noShift X hX a b (hc.valid_head hne) (hab.congr (fun v => (rest_fresh hc.w0 v).symm))).mono
+  (hc.foot hc.noShift X hX a b (hc.valid_head hall hne) (hab.congr (fun v => (rest_fresh hc.w0 v).symm))).mono
     (fun _ _ h => h.mov0)
 
-theorem ChildOk.round_frame (hc : ChildOk shP shC pc sub0 sub1 cS bodyS) {X : Int → Prop}
+theorem ChildOk.round_frame (hc : ChildOk Gc shP shC pc sub0 sub1 cS bodyS) (hall : ∀ σ, Gc σ)
+    {X : Int → Prop}
     (hX : ∀ v, X v → v ∉ sub1.reads) {a b : State w} (hab : AgreeOff X a b)
     (hne : a.rd (cS + shP) ≠ 0#w) (b' : State w) (hex : Exec sub1.insts b (.fin b')) :
     b'.ptr = b.ptr ∧ ∀ v, (v ∉ mKeys sub1.written ∧ v ∉ sub1.reads) → memE b' v = memE b v := by
-  obtain ⟨p, m⟩ := hc.frame2 hc.noShift X hX a b (hc.valid_head hne)
+  obtain ⟨p, m⟩ := hc.frame2 hc.noShift X hX a b (hc.valid_head hall hne)
     (hab.congr (fun v => (rest_fresh hc.w0 v).symm)) b' hex
   exact ⟨p, fun v hv => m v hv.1 hv.2⟩
 
-theorem ChildOk.round_bad (hc : ChildOk shP shC pc sub0 sub1 cS bodyS)
-    (hb1 : FootBadV (Valid shP sub0 pc) sub0 sub1 sub1.insts) {X : Int → Prop}
+theorem ChildOk.round_bad (hc : ChildOk Gc shP shC pc sub0 sub1 cS bodyS) (hall : ∀ σ, Gc σ)
+    {X : Int → Prop}
     (hX : ∀ v, X v → v ∉ sub1.reads) {a b : State w} (hab : AgreeOff X a b)
     (hne : a.rd (cS + shP) ≠ 0#w) (hb : Bad sub1.insts b) : Bad sub1.insts a :=
-  hb1 hc.noShift X hX a b (hc.valid_head hne) (hab.congr (fun v => (rest_fresh hc.w0 v).symm)) hb
-
-/-- The child's mirrored badness survives its own emission. -/
-theorem ChildPre.emit_badfoot {sub : Rebuild w} (h : ChildPre shP shC pc sub0 sub cS bodyS)
-    {os os1 : Orders}
-    (h1 : ((if !sub.noReturn then emitAll [] (pendingSorted sub sub) sub else pure sub : M (Rebuild w)).run os
-      = .ok (sub1, os1))) :
-    FootBadV (Valid shP sub0 pc) sub0 sub1 sub1.insts := by
-  split at h1
-  · obtain ⟨c, res, ef⟩ := emitAll_foot [] (pendingSorted sub sub) h.wf h1
-    rw [res.insts]
-    exact h.badfoot.trans h.foot (footBadV_of_noBlocks (V := fun _ => True) (noBlocks_calcs c))
-      (fun _ _ _ _ => trivial) ef.mono
-  · rw [run_pure] at h1
-    cases h1
-    exact h.badfoot
+  hc.badfoot hc.noShift X hX a b (hc.valid_head hall hne) (hab.congr (fun v => (rest_fresh hc.w0 v).symm)) hb
 
 end Round
 
@@ -313,7 +300,7 @@ theorem loopOrIf_stay_setup {shP cS : Int} {s : Rebuild w}
           v ∈ mKeys (loopTail r.1 r.2.1 (cS + shP) isLoop L hflag r.2.2).written ∨
           v ∈ (loopTail r.1 r.2.1 (cS + shP) isLoop L hflag r.2.2).reads) ∧
       ((loopTail r.1 r.2.1 (cS + shP) isLoop L hflag r.2.2).subShift = false → L.noEffect = false →
-        ∀ v, ((v ∈ mKeys sub1.written ∧ C.contains v = false) ∨ v ∈ sub1.reads) →
+        ∀ v, (v ∈ mKeys sub1.written ∨ v ∈ sub1.reads) →
           v ∈ mKeys (loopTail r.1 r.2.1 (cS + shP) isLoop L hflag r.2.2).written ∨
           v ∈ (loopTail r.1 r.2.1 (cS + shP) isLoop L hflag r.2.2).reads) ∧
       (∀ M0 (σ1 σS : State w), RelAt shP s ps M0 σ1 σS → (comps.foldl doCalc σ1).rd (cS + shP) = σS.rd cS) := by
@@ -322,7 +309,7 @@ theorem loopOrIf_stay_setup {shP cS : Int} {s : Rebuild w}
   obtain ⟨_, hshEq⟩ := hns'
   obtain ⟨s3', compsL, Dx, hreq, hclob, hdrop, hreads, _, _, hminvx⟩ := loopPrep_stay hwf hns hr
   obtain ⟨comps, hsubR, p1, _, p3, _, p5, _, _⟩ := loopPrep_stay_foot hwf hwf1 hns hr
-  obtain ⟨compsP, _, q1, _, q3, _, _, q6, q7⟩ := loopPrep_stay_phys hwf hns hr
+  obtain ⟨compsP, _, q1, _, q3, _, _, q6, q7, q8⟩ := loopPrep_stay_phys hwf hns hr
   have hcompsL : compsL = comps := by
     apply calc_map_inj
     have e1 : r.1.insts = s3'.insts := by
@@ -356,12 +343,18 @@ theorem loopOrIf_stay_setup {shP cS : Int} {s : Rebuild w}
     · exact Or.inr (by rw [t4]; exact h)
   · intro hss hne v hv
     have hssP : r.1.subShift = false := by rw [← hssEq]; exact hss
-    rcases hv with ⟨h, hC⟩ | h
-    · left
-      apply hkeys
-      apply q7 hssP v
-      obtain ⟨vk, hvk, e⟩ := List.mem_map.1 h
-      exact ⟨hne, vk, hvk, e, hC⟩
+    rcases hv with h | h
+    · cases hC : C.contains v with
+      | true =>
+        rcases q8 hssP v h hC with h' | h'
+        · exact Or.inl (hkeys v h')
+        · exact Or.inr (by rw [t4]; exact h')
+      | false =>
+        left
+        apply hkeys
+        apply q7 hssP v
+        obtain ⟨vk, hvk, e⟩ := List.mem_map.1 h
+        exact ⟨hne, vk, hvk, e, hC⟩
     · rcases q6 hssP v (Or.inl h) with h' | h'
       · exact Or.inl (hkeys v h')
       · exact Or.inr (by rw [t4]; exact h')
@@ -381,18 +374,21 @@ theorem loopOrIf_stay_setup {shP cS : Int} {s : Rebuild w}
 
 /-! ### `loopOrIf`, non-moving child: mirrored badness -/
 
-theorem loopOrIf_stay_footBad {shP shC cS : Int} {bodyS : List (Instr w)}
+theorem loopOrIf_stay_footBad {shP shC shS cS : Int} {bodyS : List (Instr w)}
     {s : Rebuild w} {ps : List (Rebuild w)} {sub : Rebuild w} {cond : Int} {isLoop : Bool} {L : OptLoop w}
     {C : List Int} {pc : List (Rebuild w)} {sub0 : Rebuild w} {os os' : Orders} {s' : Rebuild w}
+    {G Gc : State w → Prop}
     (hr : (loopOrIf s ps sub cond isLoop L C).run os = .ok (s', os'))
-    (hwf : Wf s) (hpre : ChildPre shP shC pc sub0 sub cS bodyS)
+    (hwf : Wf s) (hpre : ChildPre Gc shP shC pc sub0 sub cS bodyS)
     (hns : (sub.subShift || sub.shift != s.shift) = false)
-    (hcond : cond = cS + shP) :
-    ∃ new, s'.insts = s.insts ++ new ∧ FootBadV (Valid shP s ps) s s' new := by
+    (hcond : cond = cS + shP)
+    (hGc : ∀ M0 σE σS, RelAt shP s ps M0 σE σS → G σS → ∀ k σk, Head cS shS bodyS σS k σk →
+      (isLoop = false → k = 0) → σk.rd cS ≠ 0#w → Gc σk)
+    (hGcT : isLoop = true → ∀ σ, Gc σ) :
+    ∃ new, s'.insts = s.insts ++ new ∧ FootBadV (ValidG G shP s ps) s s' new := by
   subst hcond
   obtain ⟨sub1, os1, r, h1, h2, rfl⟩ := loopOrIf_run hr
   obtain ⟨hc, hwf1, hshift1⟩ := hpre.emit h1
-  have hb1 := hpre.emit_badfoot h1
   have hshEq : sub.shift = s.shift := by
     have := hns
     simp only [Bool.or_eq_false_iff, bne_eq_false_iff_eq] at this
@@ -402,8 +398,16 @@ theorem loopOrIf_stay_footBad {shP shC cS : Int} {bodyS : List (Instr w)}
   obtain ⟨comps, hi, hhead, _, _, _⟩ :=
     loopOrIf_stay_setup (isLoop := isLoop)
       (sub1.subShift || sub1.shift != s.shift) hwf hwf1 hns1 h2
+  obtain ⟨compsL, eL, hsemc⟩ := loopPrep_stay_semctx hc hwf hwf1 hns1 h2
+  have hcL : compsL = comps := by
+    apply calc_map_inj
+    obtain ⟨_, _, _, _, _, _, t7⟩ := loopTail_fields r.1 r.2.1 (cS + shP) isLoop L
+      (sub1.subShift || sub1.shift != s.shift) r.2.2
+    rw [t7, eL, List.append_assoc] at hi
+    exact List.append_inj_left' (List.append_cancel_left hi) rfl
+  rw [hcL] at hsemc
   refine ⟨_, hi, ?_⟩
-  intro hss K hK σ1 σ2 _ hag hbad
+  intro hss K hK σ1 σ2 v1 hag hbad
   have hA := hhead hss K hK σ1 σ2 hag
   rw [bad_calcs_iff] at hbad ⊢
   have hXr : ∀ v, HeadSet K r.1 sub1 (cS + shP) L C v → v ∉ sub1.reads := fun v h => h.1.1
@@ -415,39 +419,59 @@ theorem loopOrIf_stay_footBad {shP shC cS : Int} {bodyS : List (Instr w)}
     refine loop_bad_mirror (J := fun a b => AgreeOff (HeadSet K r.1 sub1 (cS + shP) L C) a b) ?_ ?_ ?_ hA hbad
     · intro a b hab; rw [hcnd a b hab]
     · intro a b hab hne
-      exact (hc.round hXr hab (by rw [hcnd a b hab]; exact hne)).mono
+      exact (hc.round (hGcT rfl) hXr hab (by rw [hcnd a b hab]; exact hne)).mono
         (fun _ _ h => h.mono (fun v hv => hv.1))
     · intro a b hab hne hb
-      exact hc.round_bad hb1 hXr hab (by rw [hcnd a b hab]; exact hne) hb
+      exact hc.round_bad (hGcT rfl) hXr hab (by rw [hcnd a b hab]; exact hne) hb
   | false =>
     simp only [Bool.false_eq_true, if_false] at hbad ⊢
-    refine ifnz_bad_mirror (by rw [hcnd _ _ hA]) ?_ hbad
-    intro hne hb
-    exact hc.round_bad hb1 hXr hA (by rw [hcnd _ _ hA]; exact hne) hb
+    -- the body is not bad from the real source state, hence (mirrored) not from the second run
+    exfalso
+    cases hbad with
+    | ifSkip _ hb' => cases hb'
+    | ifIter _ _ hb' => cases hb'
+    | ifIn hne hb' =>
+      obtain ⟨M0, σS, hrel, hg⟩ := v1
+      obtain ⟨hcell, hctx⟩ := hsemc M0 σ1 σS hrel
+      have hneS : σS.rd cS ≠ 0#w := by rw [← hcell, hcnd _ _ hA]; exact hne
+      have hGcS : Gc σS := hGc M0 σ1 σS hrel hg 0 σS Head.zero (fun _ => rfl) hneS
+      obtain ⟨hvX, hnbX, hXp, hXe, hXt, hXrd, _⟩ := hctx hneS hGcS
+      obtain ⟨_, hbm, _⟩ := child_chain hc.foot hc.badfoot hc.frame2 hc.noShift hc.w0 hvX hXr hXp hXe hXt
+        hXrd hA
+      exact hnbX (hbm hb')
 
 /-! ### `loopOrIf`, non-moving child: the write frame along the footprint -/
 
-theorem loopOrIf_stay_footFrame {shP shC shS cS : Int} {bodyS : List (Instr w)} {oS : Bool}
+/-- The write frame of `loopOrIf` (non-moving child), given the simulation statement of `loopOrIf_stay_ok` (or of
+`loopOrIf_stay_ok'`) as a hypothesis. -/
+theorem loopOrIf_stay_footFrame_of_step {shP shC shS cS : Int} {bodyS : List (Instr w)} {oS : Bool}
     {s : Rebuild w} {ps : List (Rebuild w)} {sub : Rebuild w} {cond : Int} {isLoop : Bool} {L : OptLoop w}
     {C : List Int} {pc : List (Rebuild w)} {sub0 : Rebuild w} {os os' : Orders} {s' : Rebuild w}
+    {G Gc : State w → Prop}
     (hr : (loopOrIf s ps sub cond isLoop L C).run os = .ok (s', os'))
-    (hwf : Wf s) (hpre : ChildPre shP shC pc sub0 sub cS bodyS)
+    (hwf : Wf s) (hpre : ChildPre Gc shP shC pc sub0 sub cS bodyS)
     (hns : (sub.subShift || sub.shift != s.shift) = false)
-    (hcond : cond = cS + shP) (hsh : shC + shS = shP)
-    (halo : L.atLeastOnce = true → ∀ M0 σE σS, RelAt shP s ps M0 σE σS → σS.rd cS ≠ 0#w)
-    (hnc : L.noContinue = true → ∀ M0 σE σS, RelAt shP s ps M0 σE σS →
-      ∀ x, ¬ Exec [blockInstr isLoop cS shS bodyS oS] σS (.fin x))
-    (hne : L.noEffect = true → ∀ M0 σE σS, RelAt shP s ps M0 σE σS →
+    (hcond : cond = cS + shP)
+    (hGc : ∀ M0 σE σS, RelAt shP s ps M0 σE σS → G σS → ∀ k σk, Head cS shS bodyS σS k σk →
+      (isLoop = false → k = 0) → σk.rd cS ≠ 0#w → Gc σk)
+    (hGcT : isLoop = true → ∀ σ, Gc σ)
+    (halo : L.atLeastOnce = true → ∀ M0 σE σS, RelAt shP s ps M0 σE σS → G σS → σS.rd cS ≠ 0#w)
+    (hne : L.noEffect = true → ∀ M0 σE σS, RelAt shP s ps M0 σE σS → G σS →
       σS.rd cS = 0#w ∨ ∀ x, ¬ Exec [blockInstr isLoop cS shS bodyS oS] σS (.fin x))
-    (hconst : ∀ M0 σE σS, RelAt shP s ps M0 σE σS → ∀ k σk, Head cS shS bodyS σS k σk →
-      ∀ x, C.contains x = true → memS σE σk x = memS σE σS x)
-    (hconstRead : L.noEffect = false → ∀ sub1 os1,
-      ((if !sub.noReturn then emitAll [] (pendingSorted sub sub) sub else pure sub : M (Rebuild w)).run os
-        = .ok (sub1, os1)) →
-      ∀ v ∈ mKeys sub1.written, C.contains v = true → v ∈ s'.reads ∨ v ∈ mKeys s'.written) :
-    ∃ new, s'.insts = s.insts ++ new ∧ FootFrameV (Valid shP s ps) s s' new := by
-  obtain ⟨newF, eF, hfoot, _, _⟩ := loopOrIf_stay_foot hr hwf hpre hns hcond halo
-  obtain ⟨_, _, newS, eS, _, hstep⟩ := loopOrIf_stay_ok (oS := oS) hr hwf hpre hns hcond hsh halo hnc hne hconst
+    (hstepEx : ∃ new, s'.insts = s.insts ++ new ∧
+      StepNG G shP shP ps s s' [blockInstr isLoop cS shS bodyS oS] new) :
+    ∃ new, s'.insts = s.insts ++ new ∧ FootFrameV (ValidG G shP s ps) s s' new := by
+  have hifne : isLoop = false → L.noEffect = true → ∀ M0 σ1 σS, RelAt shP s ps M0 σ1 σS → G σS →
+      σS.rd cS ≠ 0#w → ∀ new x, s'.insts = s.insts ++ new → ¬ Exec new σ1 (.fin x) := by
+    intro _ hnev M0 σ1 σS hrel hg hneS new x hin hx
+    obtain ⟨newS, eS, hst⟩ := hstepEx
+    have : new = newS := List.append_cancel_left (hin.symm.trans eS)
+    subst this
+    rcases hne hnev M0 σ1 σS hrel hg with h | h
+    · exact hneS h
+    · exact nofin_of_step hst hrel hg h x hx
+  obtain ⟨newF, eF, hfoot, _, _⟩ := loopOrIf_stay_foot hr hwf hpre hns hcond hGc hGcT hifne halo
+  obtain ⟨newS, eS, _, hstep⟩ := hstepEx
   have hnew : newS = newF := List.append_cancel_left (eS.symm.trans eF)
   subst hnew
   subst hcond
@@ -465,6 +489,15 @@ theorem loopOrIf_stay_footFrame {shP shC shS cS : Int} {bodyS : List (Instr w)} 
   have hnewEq : newS = comps.map Instr.calc ++ [if isLoop then Instr.loop (cS + shP) 0 sub1.insts L.atLeastOnce
       else Instr.ifnz (cS + shP) 0 sub1.insts] := List.append_cancel_left (eS.symm.trans hi)
   subst hnewEq
+  obtain ⟨compsL, eL, hsemc⟩ := loopPrep_stay_semctx hc hwf hwf1 hns1 h2
+  have hcL : compsL = comps := by
+    apply calc_map_inj
+    obtain ⟨_, _, _, _, _, _, t7⟩ := loopTail_fields r.1 r.2.1 (cS + shP) isLoop L
+      (sub1.subShift || sub1.shift != s.shift) r.2.2
+    have hi' := hi
+    rw [t7, eL, List.append_assoc] at hi'
+    exact List.append_inj_left' (List.append_cancel_left hi') rfl
+  rw [hcL] at hsemc
   refine ⟨_, hi, ?_⟩
   intro hss K hK σ1 σ2 v1 hag bb hex
   have hA := hhead hss K hK σ1 σ2 hag
@@ -495,10 +528,10 @@ theorem loopOrIf_stay_footFrame {shP shC shS cS : Int} {bodyS : List (Instr w)} 
   | true =>
     -- a run that reaches the end has not entered the loop
     obtain ⟨aa, hexA, _⟩ := (hfoot hss K hK σ1 σ2 v1 hag).finR bb hex
-    obtain ⟨M0, σS, hrel⟩ := v1
-    obtain ⟨x, hx, _⟩ := (hstep M0 σ1 σS hrel).1.finR aa hexA
+    obtain ⟨M0, σS, hrel, hg⟩ := v1
+    obtain ⟨x, hx, _⟩ := (hstep M0 σ1 σS hrel hg).1.finR aa hexA
     have hzS : σS.rd cS = 0#w := by
-      rcases hne hnev M0 σ1 σS hrel with h | h
+      rcases hne hnev M0 σ1 σS hrel hg with h | h
       · exact h
       · exact absurd hx (h x)
     have hz1 : (comps.foldl doCalc σ1).rd (cS + shP) = 0#w := by rw [hcell M0 σ1 σS hrel]; exact hzS
@@ -521,15 +554,9 @@ theorem loopOrIf_stay_footFrame {shP shC shS cS : Int} {bodyS : List (Instr w)} 
         v ∉ mKeys sub1.written ∧ v ∉ sub1.reads := by
       intro v hv1 hv2
       refine ⟨fun h => ?_, fun h => ?_⟩
-      · cases hC : C.contains v with
-        | true =>
-          rcases hconstRead hnev sub1 os1 h1 v h hC with h' | h'
-          · exact hv2 h'
-          · exact hv1 h'
-        | false =>
-          rcases hrec hss hnev v (Or.inl ⟨h, hC⟩) with h' | h'
-          · exact hv1 h'
-          · exact hv2 h'
+      · rcases hrec hss hnev v (Or.inl h) with h' | h'
+        · exact hv1 h'
+        · exact hv2 h'
       · rcases hrec hss hnev v (Or.inr h) with h' | h'
         · exact hv1 h'
         · exact hv2 h'
@@ -541,16 +568,69 @@ theorem loopOrIf_stay_footFrame {shP shC shS cS : Int} {bodyS : List (Instr w)} 
         refine loop_frame_aux (J := fun a b => AgreeOff (HeadSet K r.1 sub1 (cS + shP) L C) a b)
           ?_ ?_ hA hexL
         · intro a b hab hne'
-          exact (hc.round hXr hab (by rw [hcnd a b hab]; exact hne')).mono
+          exact (hc.round (hGcT rfl) hXr hab (by rw [hcnd a b hab]; exact hne')).mono
             (fun _ _ h => h.mono (fun v hv => hv.1))
         · intro a b hab hne' b' hb'
-          exact hc.round_frame hXr hab (by rw [hcnd a b hab]; exact hne') b' hb'
+          exact hc.round_frame (hGcT rfl) hXr hab (by rw [hcnd a b hab]; exact hne') b' hb'
       | false =>
         simp only [Bool.false_eq_true, if_false] at hexL
         refine ifnz_frame_aux ?_ hexL
         intro hne' b' hb'
-        exact hc.round_frame hXr hA (by rw [hcnd _ _ hA]; exact hne') b' hb'
+        obtain ⟨M0, σS, hrel, hg⟩ := v1
+        obtain ⟨hcell', hctx⟩ := hsemc M0 σ1 σS hrel
+        have hneS : σS.rd cS ≠ 0#w := by rw [← hcell', hcnd _ _ hA]; exact hne'
+        have hGcS : Gc σS := hGc M0 σ1 σS hrel hg 0 σS Head.zero (fun _ => rfl) hneS
+        obtain ⟨hvX, _, hXp, hXe, hXt, hXrd, _⟩ := hctx hneS hGcS
+        obtain ⟨_, _, hfr⟩ := child_chain hc.foot hc.badfoot hc.frame2 hc.noShift hc.w0 hvX hXr hXp hXe hXt
+          hXrd hA
+        obtain ⟨p, m⟩ := hfr b' hb'
+        exact ⟨p, fun v hv => m v hv.1 hv.2⟩
     exact ⟨hframe.1, fun v hv1 hv2 => hframe.2 v (hP v hv1 hv2)⟩
+
+theorem loopOrIf_stay_footFrame {shP shC shS cS : Int} {bodyS : List (Instr w)} {oS : Bool}
+    {s : Rebuild w} {ps : List (Rebuild w)} {sub : Rebuild w} {cond : Int} {isLoop : Bool} {L : OptLoop w}
+    {C : List Int} {pc : List (Rebuild w)} {sub0 : Rebuild w} {os os' : Orders} {s' : Rebuild w}
+    {G Gc : State w → Prop}
+    (hr : (loopOrIf s ps sub cond isLoop L C).run os = .ok (s', os'))
+    (hwf : Wf s) (hpre : ChildPre Gc shP shC pc sub0 sub cS bodyS)
+    (hns : (sub.subShift || sub.shift != s.shift) = false)
+    (hcond : cond = cS + shP) (hsh : shC + shS = shP)
+    (hGc : ∀ M0 σE σS, RelAt shP s ps M0 σE σS → G σS → ∀ k σk, Head cS shS bodyS σS k σk →
+      (isLoop = false → k = 0) → σk.rd cS ≠ 0#w → Gc σk)
+    (hGcT : isLoop = true → ∀ σ, Gc σ)
+    (halo : L.atLeastOnce = true → ∀ M0 σE σS, RelAt shP s ps M0 σE σS → G σS → σS.rd cS ≠ 0#w)
+    (hnc : L.noContinue = true → ∀ M0 σE σS, RelAt shP s ps M0 σE σS → G σS →
+      ∀ x, ¬ Exec [blockInstr isLoop cS shS bodyS oS] σS (.fin x))
+    (hne : L.noEffect = true → ∀ M0 σE σS, RelAt shP s ps M0 σE σS → G σS →
+      σS.rd cS = 0#w ∨ ∀ x, ¬ Exec [blockInstr isLoop cS shS bodyS oS] σS (.fin x))
+    (hconst : ∀ M0 σE σS, RelAt shP s ps M0 σE σS → G σS → ∀ k σk, Head cS shS bodyS σS k σk →
+      ∀ x, C.contains x = true → memS σE σk x = memS σE σS x) :
+    ∃ new, s'.insts = s.insts ++ new ∧ FootFrameV (ValidG G shP s ps) s s' new :=
+  loopOrIf_stay_footFrame_of_step hr hwf hpre hns hcond hGc hGcT halo hne
+    (loopOrIf_stay_ok (oS := oS) hr hwf hpre hns hcond hsh hGc halo hnc hne hconst).2.2
+
+/-- The same with the weaker constancy hypothesis of `loopOrIf_stay_ok'`. -/
+theorem loopOrIf_stay_footFrame' {shP shC shS cS : Int} {bodyS : List (Instr w)} {oS : Bool}
+    {s : Rebuild w} {ps : List (Rebuild w)} {sub : Rebuild w} {cond : Int} {isLoop : Bool} {L : OptLoop w}
+    {C : List Int} {pc : List (Rebuild w)} {sub0 : Rebuild w} {os os' : Orders} {s' : Rebuild w}
+    {G Gc : State w → Prop}
+    (hr : (loopOrIf s ps sub cond isLoop L C).run os = .ok (s', os'))
+    (hwf : Wf s) (hpre : ChildPre Gc shP shC pc sub0 sub cS bodyS)
+    (hns : (sub.subShift || sub.shift != s.shift) = false)
+    (hcond : cond = cS + shP) (hsh : shC + shS = shP)
+    (hGc : ∀ M0 σE σS, RelAt shP s ps M0 σE σS → G σS → ∀ k σk, Head cS shS bodyS σS k σk →
+      (isLoop = false → k = 0) → σk.rd cS ≠ 0#w → Gc σk)
+    (hGcT : isLoop = true → ∀ σ, Gc σ)
+    (halo : L.atLeastOnce = true → ∀ M0 σE σS, RelAt shP s ps M0 σE σS → G σS → σS.rd cS ≠ 0#w)
+    (hnc : L.noContinue = true → ∀ M0 σE σS, RelAt shP s ps M0 σE σS → G σS →
+      ∀ x, ¬ Exec [blockInstr isLoop cS shS bodyS oS] σS (.fin x))
+    (hne : L.noEffect = true → ∀ M0 σE σS, RelAt shP s ps M0 σE σS → G σS →
+      σS.rd cS = 0#w ∨ ∀ x, ¬ Exec [blockInstr isLoop cS shS bodyS oS] σS (.fin x))
+    (hconst : ∀ M0 σE σS, RelAt shP s ps M0 σE σS → G σS → ∀ k σk, Head cS shS bodyS σS k σk →
+      (isLoop = false → k ≤ 1) → ∀ x, C.contains x = true → memS σE σk x = memS σE σS x) :
+    ∃ new, s'.insts = s.insts ++ new ∧ FootFrameV (ValidG G shP s ps) s s' new :=
+  loopOrIf_stay_footFrame_of_step hr hwf hpre hns hcond hGc hGcT halo hne
+    (loopOrIf_stay_ok' (oS := oS) hr hwf hpre hns hcond hsh hGc halo hnc hne hconst).2.2
 
 /-! ### `loopOrIf`, moving child: everything is void -/
 
